@@ -323,6 +323,34 @@ def cond_kernel(fn, coqname, args, k):
     return "Definition %s (%s : Z) : bool :=\n  %s.\n" % (coqname, " ".join(args), term)
 
 
+def call_order(fn, first, second):
+    """pre-order positions of the calls to `first` and `second` inside fn: returns True if the (single) call of
+    `first` comes before the (single) call of `second`; anything else than exactly one call each is unsupported"""
+    pos = {first: [], second: []}
+    counter = [0]
+
+    def callee_name(c):
+        n = c["inner"][0]
+        while n.get("kind") in ("ImplicitCastExpr", "ParenExpr") and n.get("inner"):
+            n = n["inner"][0]
+        return n.get("referencedDecl", {}).get("name")
+
+    def walk(n):
+        counter[0] += 1
+        if n.get("kind") == "CallExpr" and n.get("inner"):
+            nm = callee_name(n)
+            if nm in pos:
+                pos[nm].append(counter[0])
+        for c in n.get("inner", []) or []:
+            if isinstance(c, dict):
+                walk(c)
+    walk(fn)
+    if len(pos[first]) != 1 or len(pos[second]) != 1:
+        raise Unsupported("%s: expected exactly one call of %s and of %s, found %d and %d"
+                          % (fn["name"], first, second, len(pos[first]), len(pos[second])))
+    return pos[first][0] < pos[second][0]
+
+
 def ast_of(path, fname):
     cmd = ["clang", "-fsyntax-only", "-Xclang", "-ast-dump=json", "-Xclang", "-ast-dump-filter=" + fname,
            "-std=gnu11", "-D_GNU_SOURCE", "-w", "-iquote", REPO, "-iquote", os.path.join(REPO, "arch/x86_64"),
@@ -383,6 +411,10 @@ def main():
             fn = ast_of(path, fname)
             v.append("(* %s:%s, condition of if #%d *)" % (path, fname, k))
             v.append(cond_kernel(fn, coqname, args, k))
+        fn = ast_of("libmcount/wrap.c", "dlopen")
+        v.append("(* libmcount/wrap.c:dlopen - is the clock (mcount_gettime) read before real_dlopen() is called? *)")
+        v.append("Definition wrap_dlopen_clock_first : bool := %s.\n"
+                 % ("true" if call_order(fn, "mcount_gettime", "real_dlopen") else "false"))
         v.append("(* constants (probe compiled against /repo's headers) *)")
         v += probe_consts()
     except Unsupported as e:
